@@ -366,8 +366,8 @@ impl Check for C20 {
             real: &["h3::qpack::{Encoder, Decoder, DynamicTable} (stateful), vas, stream instruction codecs, block representations (through the verif-hooks re-export)"],
             stub: &["the three channels between encoder and decoder (owned by the simulator)", "the layer above the decoder that emits Section Acknowledgment / Stream Cancellation"],
             assumptions: &["this code is not reachable from h3's connection code today (stateless codec is used); the reference (refs::qpack_dyn) takes MaxEntries from the initial capacity, which stands for SETTINGS_QPACK_MAX_TABLE_CAPACITY", "the blocked-stream limit is judged with the Known Received Count reconstructed by the reference from the decoder stream as delivered to the encoder"],
-            quick_runs: 100_000,
-            thorough_runs: 5_000_000,
+            quick_runs: 700_000,
+            thorough_runs: 28_000_000,
         }
     }
     fn run(&self, ctx: &RunCtx) -> RunOut {
